@@ -7,8 +7,10 @@ import itertools
 from .. import explorer, pubmodel, runner
 from . import c10
 
-SUBS = ["A1", "A2", "G1", "G2", "S1", "Z1", "Z2", "H1", "Y1"]
+SUBS = ["A1", "A2", "G1", "G2", "S1", "Z1", "Z2", "H1", "Y1", "B1", "B2"]
 # A*: AirTouch subscribers; G*: general subscribers of AC0; S1: AC-state-only subscriber of AC0;
+# B1/B2: ONE callable each registered with AC0 both as general and as AC-state subscriber (B1: general first, B2: AC-state
+# first); 'unsub-one-of-both' removes B1's general and B2's AC-state registration - the other registration must live on;
 # Z*: subscribers of zone 0 (belongs to AC0); H1: general subscriber of AC1 (owns zone 2); Y1: subscriber of zone 2
 
 
@@ -34,7 +36,10 @@ class Harness:
                         "S1": (self.ac0.subscribe_ac_state, self.ac0.unsubscribe_ac_state),
                         "Z1": (self.z0.subscribe, self.z0.unsubscribe), "Z2": (self.z0.subscribe, self.z0.unsubscribe),
                         "H1": (self.ac1.subscribe, self.ac1.unsubscribe),
-                        "Y1": (self.z2.subscribe, self.z2.unsubscribe)}
+                        "Y1": (self.z2.subscribe, self.z2.unsubscribe),
+                        "B1": (lambda f: (self.ac0.subscribe(f), self.ac0.subscribe_ac_state(f)), self.ac0.unsubscribe),
+                        "B2": (lambda f: (self.ac0.subscribe_ac_state(f), self.ac0.subscribe(f)), self.ac0.unsubscribe_ac_state)}
+        self.bmode = {"B1": "general", "B2": "general"}       # which rule applies: both registrations = general rule
         for s in SUBS:
             self.targets[s][0](self.fns[s])
             self.active.add(s)
@@ -64,7 +69,8 @@ class Harness:
 
 
 EVENTS = ["ac0-change", "ac0-repeat", "zone0-change", "zone0-repeat", "zone2-change", "all-zones-change", "timer-change", "timer-repeat",
-          "errtext-change", "version-change", "version-repeat", "sub-twice", "unsub-twins", "raise-on", "raise-others", "oneshot-on"]
+          "errtext-change", "version-change", "version-repeat", "sub-twice", "unsub-twins", "raise-on", "raise-others", "oneshot-on",
+          "unsub-one-of-both"]
 
 
 def apply_event(h, ev, k):
@@ -123,6 +129,11 @@ def apply_event(h, ev, k):
         # the complementary subset starts raising (together with 'raise-on': every subscriber raises)
         h.raising |= {"A2", "G2", "Z2", "H1", "Y1"}
         return []
+    if ev == "unsub-one-of-both":
+        h.targets["B1"][1](h.fns["B1"])        # B1 leaves the general set: still an AC-state subscriber
+        h.targets["B2"][1](h.fns["B2"])        # B2 leaves the AC-state set: still a general subscriber
+        h.bmode["B1"] = "state"
+        return []
     if ev == "oneshot-on":
         # (un)subscribing from inside a callback is a placement of subscribe/unsubscribe like any other
         h.oneshot |= {s for s in ("A2", "G2", "Z2") if s in h.active}
@@ -152,10 +163,12 @@ def expectations(h, before, after, prev_state, prev_inst):
     exp["A1"] = exp["A2"] = rule(ver_changed, ver_same)
     exp["G1"] = exp["G2"] = rule(ac0_changed or z0_changed or z1_changed, ac0_same and z_same[0] and z_same[1])
     exp["S1"] = "must" if ac0_changed else ("mustnot" if ac0_same else "free")
+    exp["B2"] = exp["G1"]
+    exp["B1"] = exp["G1"] if h.bmode["B1"] == "general" else exp["S1"]
     exp["Z1"] = exp["Z2"] = rule(z0_changed, z_same[0])
     exp["H1"] = rule(ac1_changed or z2_changed, ac1_same and z_same[2])
     exp["Y1"] = rule(z2_changed, z_same[2])
-    ids = {"A1": h.w.at.airtouch_id, "A2": h.w.at.airtouch_id, "G1": 0, "G2": 0, "S1": 0, "Z1": 0, "Z2": 0, "H1": 1, "Y1": 2}
+    ids = {"A1": h.w.at.airtouch_id, "A2": h.w.at.airtouch_id, "G1": 0, "G2": 0, "S1": 0, "Z1": 0, "Z2": 0, "H1": 1, "Y1": 2, "B1": 0, "B2": 0}
     return exp, ids
 
 
@@ -240,5 +253,5 @@ def run(tier, seed, part=None):
     chk.counters["transitions"] = n
     chk.counters["executions"] = n
     chk.outcomes.update({o: 1 for o in outcomes})
-    return chk.finish({"rule": "transitions = events applied to a real initialised client with 8 subscribers; "
+    return chk.finish({"rule": "transitions = events applied to a real initialised client with 11 subscribers; "
                                "states = distinct final notification count vectors"})
